@@ -115,6 +115,45 @@ CLAIMED['C03'] = dict(
     note='Trusted: rustc MIR printer, mirsym, hash maps as association lists with distinct keys, abstract identities, Z3.',
     ref='§4 C03')
 
+CLAIMED['C20'] = dict(
+    text='Decides with Z3 over the real MIR: C20.K1 for every object kind (string, tuple, list, instance with symbolic length / '
+         'capacity / field count in both value representations, and each fixed-size `impl Object`) the kind\'s real alloc() runs on a '
+         'byte-addressed block model, then the real ObjectHandle::size and <ObjectHandle as Drop>::drop run on the handle it produced: '
+         'the size reported at allocation, the size summed by the sweeps and the size and alignment handed to dealloc all equal the '
+         'layout the block was obtained with, for every length (element loops of drop summarised) and with the loops executed for '
+         'length <= 3, every access inside the block; C20.K3 Allocator::collect_garbage from an arbitrary mark state over abstract '
+         'handles (1-2 old, 2 nursery, 1-2 boxed, nursery and full sweeps via symbolic gc_count): bytes_allocated equals the sum of '
+         'the survivors\' sizes, next_gc is exactly twice that, survivors are unmarked again, the nursery is emptied. Real type sizes '
+         'come from rustc -Zprint-type-sizes of the same tree. Vector growth / forwarding blocks and non-object boxed allocations '
+         '(Box<dyn Manage> sizes) are not yet covered. Found and fixed F1 (string dealloc layout) and F2 (nursery accounting).',
+    note='Trusted: rustc MIR printer and type-size printer, mirsym, block memory model (obl/memabs.py: usize words in a z3 array, '
+         '#[repr(C)] prefix punning), handle abstraction (obl/gcabs.py: identity, size, mark bit), Layout::from_size_align model, Z3.',
+    ref='§4 C20')
+
+CLAIMED['C05'] = dict(
+    text='Decides with Z3 over the real MIR of Allocator::collect_garbage / collect_garbage_with_value and the sweeps (C05.K2) from an '
+         'arbitrary mark state over abstract handles: every marked object survives, a nursery / boxed object survives exactly when '
+         'marked, a full collection releases exactly the unmarked old objects, nothing is released twice, sweeping starts only after '
+         'the context roots and every temporary root were traced, the newborn object of an allocation-triggered collection is a '
+         'root, the temporary root stack is balanced, and no intern-table entry is left pointing at a released string. The per-type '
+         'trace bodies and the VM root set (completeness of marking, C05.K1) are not yet machine checked, so this is the collector '
+         'half of the property only.',
+    note='Trusted: rustc MIR printer, mirsym, handle abstraction (identity, size, mark bit), tracing abstracted to "marks an '
+         'arbitrary superset of the traced roots", Vec retain/drain/filter/extend models, Z3.',
+    ref='§4 C05')
+
+CLAIMED['C09'] = dict(
+    text='Decides with Z3 over the real MIR of Allocator::manage_str / has_str / sweep_intern_cache / collect_garbage (C09.K1), string '
+         'contents uninterpreted (any text, any length): from any intern table satisfying its invariant (distinct keys, key == content '
+         'of its string) manage_str returns the one existing object for equal content and allocates nothing, otherwise a fresh object '
+         'with that content that the table maps from then on (has_str finds exactly it) and that survives the collection its own '
+         'allocation may trigger; every collection prunes the table after all roots are traced and before anything is released, an '
+         'entry stays exactly when its string is marked. By induction: equal content <=> same object for all creation orders and '
+         'collection timings. That every string-producing native routes through manage_str, and identity-based ==/hash of values '
+         '(C14.D1), are separate; the native call sites are not yet machine checked.',
+    note='Trusted: rustc MIR printer, mirsym, hash map as association list with distinct keys, handle abstraction, Z3.',
+    ref='§4 C09')
+
 NOT_APPLICABLE = {
     'C08': 'global liveness of the fiber scheduler needs the running Vm (DESIGN.md §6); no bounded symbolic encoding of the real scheduler is within reach',
 }
@@ -146,8 +185,9 @@ def main():
         'version': 1,
         'setup_cmd': './setup.sh',
         'hooks': {
-            'guard': 'cargo feature `verif` (laythe_core, laythe_lib, laythe_vm)',
-            'enable': 'cargo build --features verif (only used for native replay; the checks read MIR of the unmodified sources)',
+            'guard': 'none: no hook or instrumentation was added to /repo (the checks read the MIR of the unmodified sources); '
+                     'the only /repo commits are unguarded "fix:" commits listed in known_findings.json',
+            'enable': 'not needed; native replay builds the unmodified `laythe` binary',
             'baseline_off_cmd': 'cd /repo && cargo test --workspace --no-fail-fast --offline',
             'source_commits': [],
             'add_only': True,
